@@ -1,7 +1,7 @@
 #!/usr/bin/env python3
 """Confirm and evaluate mutations delivered by sub-agents.
 
-usage: eval_mutations.py <PID> [--keep]        (fresh deliveries in /tmp/wt-<PID>/mutations/)
+usage: eval_mutations.py <PID> [--round N] [--keep]   (fresh deliveries in /tmp/wt-<PID>/mutations/, round N>1: /tmp/wN-<PID>/, stored as <PID>-rNm<k>)
        eval_mutations.py --seeded [name ...]  (re-evaluate the stored /verif/seeded/<name>/ and refresh meta.json)
 For every /tmp/wt-<PID>/mutations/m<k>.diff:
   1. scratch copy of /repo (Cargo.*, src) outside /repo and /verif;
@@ -25,8 +25,11 @@ def sh(cmd, cwd, env=None, timeout=1200):
     return p.returncode, p.stdout
 
 
+ROUND = 1
+
+
 def evaluate(pid, k, keep, stored=None, reconfirm=True):
-    mdir = '/tmp/wt-%s/mutations' % pid
+    mdir = ('/tmp/wt-%s/mutations' if ROUND == 1 else '/tmp/w%d-%%s/mutations' % ROUND) % pid
     diff = os.path.join(mdir, 'm%d.diff' % k)
     demo = os.path.join(mdir, 'm%d_demo.rs' % k)
     note = os.path.join(mdir, 'm%d.md' % k)
@@ -96,7 +99,7 @@ def evaluate(pid, k, keep, stored=None, reconfirm=True):
                                       'demo_passes_unmodified': res['demo_passes_unmodified'], 'demo_fails_with_mutation': res['demo_fails_with_mutation']})
             json.dump(meta, open(mp, 'w'), indent=1)
         elif keep and res['confirmed']:
-            dst = os.path.join(VERIF, 'seeded', '%s-m%d' % (pid, k))
+            dst = os.path.join(VERIF, 'seeded', ('%s-m%d' if ROUND == 1 else '%%s-r%dm%%d' % ROUND) % (pid, k))
             os.makedirs(dst, exist_ok=True)
             shutil.copy(diff, os.path.join(dst, 'patch.diff'))
             shutil.copy(demo, os.path.join(dst, 'demo.rs'))
@@ -120,7 +123,7 @@ def main_seeded(names):
 
     def one(name):
         d = os.path.join(sdir, name)
-        pid, k = name.split('-m')
+        pid, k = name.split('-')[0], name.rsplit('m', 1)[1]
         return name, evaluate(pid, int(k), False, stored=d, reconfirm=reconfirm)
     with ThreadPoolExecutor(max_workers=1 if reconfirm else 3) as ex:
         results = list(ex.map(one, names))
@@ -136,7 +139,10 @@ def main_seeded(names):
 def main():
     if sys.argv[1] == '--seeded':
         return main_seeded(sys.argv[2:])
+    global ROUND
     pid = sys.argv[1]
+    if '--round' in sys.argv:
+        ROUND = int(sys.argv[sys.argv.index('--round') + 1])
     keep = '--keep' in sys.argv
     out = []
     for k in (1, 2, 3, 4):
